@@ -1476,7 +1476,14 @@ func min(x, y value) value {
 	}
 
 	// return (y < x) ? y : x
-	if binop(token.LSS, nil, y, x).(bool) {
+	c := binop(token.LSS, nil, y, x)
+	if sc, isSym := c.(sym); isSym {
+		if v, ok := symIte(sc.e, y, x); ok {
+			return v
+		}
+		panic(engineLimit{"min over symbolic operands of unsupported kind"})
+	}
+	if c.(bool) {
 		return y
 	}
 	return x
@@ -1491,7 +1498,14 @@ func max(x, y value) value {
 	}
 
 	// return (y > x) ? y : x
-	if binop(token.GTR, nil, y, x).(bool) {
+	c := binop(token.GTR, nil, y, x)
+	if sc, isSym := c.(sym); isSym {
+		if v, ok := symIte(sc.e, y, x); ok {
+			return v
+		}
+		panic(engineLimit{"max over symbolic operands of unsupported kind"})
+	}
+	if c.(bool) {
 		return y
 	}
 	return x
